@@ -270,8 +270,6 @@ func (svc *service) stop() {
 	}
 
 	svc.conn = nil
-	svc.in = nil
-	svc.out = nil
 }
 
 func (svc *service) publish(msg *message.PublishMessage, onComplete OnCompleteFunc) error {
